@@ -9,7 +9,9 @@ before/after states.
 import json, os, shutil, subprocess
 from bbox import Sandbox, Rng, blake3_hex, hexs, HOST, CLI_BIN
 
-CONTENTS = [b"one\n", b"two two\n", b"3", b"", b"four-four-four-four\n", b"\x00\xff\x00five", b"six" * 50]
+CONTENTS = [b"one\n", b"two two\n", b"3", b"", b"four-four-four-four\n", b"\x00\xff\x00five", b"six" * 50,
+            # same lengths as others above: a rewrite that changes neither size nor (within the second of the last run) mtime
+            b"1ne\n", b"ONE\n", b"TWO two\n", b"4"]
 PATHS = ["p", "q", "d/r", "d/e/s", "t.txt", "a b", "d.x"]
 # every random history also gets three names from this list (seed C06-D: a file name containing `..` made the archive
 # look tampered). None is a directory prefix of another or of PATHS; none ends in the reserved staging suffix.
@@ -252,6 +254,14 @@ def run(pid, tier, seed, rundir, model_run):
         [("write", "A", "p", b"one\n"), ("write", "B", "q", b"3"), ("write", "A", "d/r", b""), ("bisync",),
          ("delete", "A", "p"), ("write", "B", "p", b"two two\n"), ("delete", "B", "d/r"), ("bisync",), ("bisync",)],
     ]
+    corpus.append(
+        # (seed C02-F) a same-length rewrite right after a run, in the same second, then the other side changes the path: the
+        # rewritten version is one side of a divergent edit, whatever size and mtime say
+        [("write", "A", "p", b"one\n"), ("bisync",), ("write", "A", "p", b"1ne\n"), ("write", "B", "p", b"two two\n"), ("bisync",), ("bisync",),
+         ("write", "B", "q", b"ONE\n"), ("bisync",), ("write", "B", "q", b"one\n"), ("delete", "A", "q"), ("bisync",), ("bisync",)])
+    corpus.append(
+        # (seed C06-F) a propagated delete empties a replica through a NESTED path: the roots themselves must survive, the next run must work
+        [("write", "A", "d/e/x", b"one\n"), ("bisync",), ("delete", "A", "d/e/x"), ("bisync",), ("bisync",), ("write", "B", "p", b"3"), ("bisync",)])
     histories = [(h, "corpus") for h in corpus] + [(None, "random") for _ in range(n_hist)]
     for hi, (hops, hkind) in enumerate(histories):
         length = rng.range(2, 12)
@@ -296,6 +306,9 @@ def run(pid, tier, seed, rundir, model_run):
                         da, db = digests(ta), digests(tb)
                         rc, out, err, plan_n, conf_n, safe = h.bisync()
                         ta2, tb2, raw2, trusted2 = h.observe()
+                        for side_, root_ in (("A", h.A), ("B", h.B)):
+                            if not os.path.isdir(root_):
+                                res["violations"].append(("replica-root-removed", f"after the run the root directory of side {side_} no longer exists", {"history": list(history_txt) + ["bisync"], "rc": rc}))
                         da2, db2 = digests(ta2), digests(tb2)
                         nbis += 1
                         status = "ok" if rc == 0 else ("conflicts" if "had conflicts" in err else "ioerror")
